@@ -27,6 +27,7 @@ type thread struct {
 	lastObj uintptr
 	lastOp  string
 	inOnce  int
+	inSel   bool // parked in a select statement
 }
 
 // Point describes one decision the scheduler took.
@@ -50,8 +51,10 @@ type Sched struct {
 
 	// Shared: when non-nil, only operations on these objects are scheduling points (reduction); Touched records, for
 	// every object, the set of threads that operated on it (bit mask).
-	Shared  map[uintptr]bool
-	Touched map[uintptr]uint32
+	Shared    map[uintptr]bool
+	Touched   map[uintptr]uint32
+	TouchedOp map[uintptr]string // last operation seen on each object (diagnostics)
+	keep      []unsafe.Pointer
 
 	// OnlyOnce: only operations on package-level objects, and everything inside a package-level Once.Do, are
 	// scheduling points (first-use scenario).
@@ -62,10 +65,17 @@ type Sched struct {
 	FreshPools bool
 	FreshOwner string
 
-	Deadlock bool
-	Steps    int
-	MaxSteps int
-	Livelock bool
+	spawned int
+	initial int
+	// Leaked: threads the library started that are still blocked when every initial thread has finished (a goroutine
+	// leak, not a deadlock). SelectLimit: a deadlock was declared while a thread was parked in a select statement (two
+	// select statements facing each other on an unbuffered channel are not modelled) — not believed.
+	Leaked      int
+	SelectLimit bool
+	Deadlock    bool
+	Steps       int
+	MaxSteps    int
+	Livelock    bool
 }
 
 // S is the active scheduler (nil: sequential pass-through).
@@ -98,7 +108,16 @@ func point(obj unsafe.Pointer, op string) {
 	}
 	o := uintptr(obj)
 	if s.Touched != nil {
+		if _, seen := s.Touched[o]; !seen {
+			// keep the object alive until the execution ends: an address reused after a collection would look like an
+			// object shared by two threads
+			s.keep = append(s.keep, obj)
+		}
 		s.Touched[o] |= 1 << uint(s.cur.id)
+		if s.TouchedOp == nil {
+			s.TouchedOp = map[uintptr]string{}
+		}
+		s.TouchedOp[o] = op
 	}
 	if s.OnlyOnce {
 		// first-use scenario: only package-level objects (data/bss segment, below the heap arena) and what happens
@@ -131,6 +150,8 @@ func blockUntil(cond func() bool) {
 // Run executes fns as cooperative threads until all are done (or deadlock / step limit).
 func (s *Sched) Run(fns ...func()) {
 	s.back = make(chan struct{})
+	s.initial = len(fns)
+	ResetChans()
 	if s.MaxSteps == 0 {
 		s.MaxSteps = 200000
 	}
@@ -158,7 +179,14 @@ func (s *Sched) Run(fns ...func()) {
 		if len(en) == 0 {
 			for _, t := range s.threads {
 				if !t.done {
-					s.Deadlock = true
+					if t.id < s.initial {
+						s.Deadlock = true
+					} else {
+						s.Leaked++
+					}
+					if t.inSel {
+						s.SelectLimit = true
+					}
 				}
 			}
 			return
@@ -261,6 +289,24 @@ func (m *RWMutex) RUnlock() {
 	m.readers--
 }
 
+func (m *RWMutex) TryLock() bool {
+	point(unsafe.Pointer(m), "RWMutex.TryLock")
+	if m.w || m.readers > 0 {
+		return false
+	}
+	m.w = true
+	return true
+}
+
+func (m *RWMutex) TryRLock() bool {
+	point(unsafe.Pointer(m), "RWMutex.TryRLock")
+	if m.w {
+		return false
+	}
+	m.readers++
+	return true
+}
+
 func (m *RWMutex) RLocker() Locker { return (*rlocker)(m) }
 
 type rlocker RWMutex
@@ -273,11 +319,8 @@ type Once struct {
 	m    Mutex
 }
 
-var onces = map[*Once]bool{}
-
 func (o *Once) Do(f func()) {
 	point(unsafe.Pointer(o), "Once.Do")
-	onces[o] = true
 	if o.done {
 		return
 	}
@@ -410,4 +453,425 @@ func (s *Sched) Describe() []string {
 	}
 	sort.Strings(out)
 	return out
+}
+
+// ---------------------------------------------------------------- goroutines and channels
+//
+// A build overlay rewrites, in both modules, `go f(x)` into vsync.Go, channel sends/receives/closes/ranges into the
+// generic helpers below and `select` into SelectReady + the *Now helpers, so that goroutines the library starts itself
+// are threads of the same cooperative scheduler and every channel operation is a scheduling point that blocks in the
+// scheduler (never in the Go runtime). Buffered channels keep their real buffer (only one thread runs at a time, so
+// len/cap decide readiness); unbuffered channels hand values over through a side queue keyed by the channel.
+
+// Spawned counts the threads started by the library itself (reset by Run).
+func (s *Sched) SpawnedThreads() int { return s.spawned }
+
+// Go starts fn as a new cooperative thread of the active scheduler.
+func Go(fn func()) {
+	s := S
+	if s == nil || s.cur == nil {
+		panic("vsync: the library started a goroutine outside the scheduler (harness must wrap library calls in vsync.Seq)")
+	}
+	t := &thread{id: len(s.threads), wake: make(chan struct{})}
+	s.threads = append(s.threads, t)
+	s.spawned++
+	go func() {
+		<-t.wake
+		fn()
+		t.done = true
+		s.back <- struct{}{}
+	}()
+	pointAlways("go")
+}
+
+// Seq runs fn as the only initial thread of a default scheduler unless one is already active (set-up code).
+func Seq(fn func()) (deadlock bool) {
+	if S != nil {
+		fn()
+		return false
+	}
+	s := &Sched{}
+	s.Run(fn)
+	return s.Deadlock || s.Livelock
+}
+
+// pointAlways is a scheduling point that is never filtered by the shared-object reduction.
+func pointAlways(op string) {
+	s := S
+	if s == nil || s.cur == nil {
+		return
+	}
+	if s.OnlyOnce && s.cur.inOnce == 0 {
+		return // first-use scenario: only what happens around package-level objects is a scheduling point
+	}
+	s.cur.lastObj, s.cur.lastOp = 0, op
+	s.yield()
+}
+
+type chanWaiter struct {
+	val   any
+	taken bool
+}
+
+type chanState struct {
+	closed bool
+	sendq  []*chanWaiter
+	recvw  int // receivers currently blocked (unbuffered)
+}
+
+var chans = map[uintptr]*chanState{}
+
+func chanKey(c any) uintptr {
+	type eface struct{ t, p unsafe.Pointer }
+	return uintptr((*eface)(unsafe.Pointer(&c)).p)
+}
+
+func chanOf(c any) *chanState {
+	k := chanKey(c)
+	st := chans[k]
+	if st == nil {
+		st = &chanState{}
+		chans[k] = st
+	}
+	return st
+}
+
+func active() bool { s := S; return s != nil && s.cur != nil }
+
+func sendReady[T any](c chan<- T, st *chanState) bool {
+	if c == nil {
+		return false
+	}
+	if st.closed {
+		return true // proceeds (and panics, as the real operation would)
+	}
+	if cap(c) > 0 {
+		return len(c) < cap(c)
+	}
+	return st.recvw > 0
+}
+
+func recvReady[T any](c <-chan T, st *chanState) bool {
+	if c == nil {
+		return false
+	}
+	if cap(c) > 0 {
+		return len(c) > 0 || st.closed
+	}
+	return len(st.sendq) > 0 || st.closed
+}
+
+// Send is `c <- v`.
+func Send[T any](c chan<- T, v T) {
+	if !active() {
+		c <- v
+		return
+	}
+	pointAlways("chan send")
+	st := chanOf(c)
+	if c == nil {
+		blockUntil(func() bool { return false })
+	}
+	if cap(c) > 0 {
+		blockUntil(func() bool { return st.closed || len(c) < cap(c) })
+		c <- v // never blocks: one thread runs at a time (panics if closed, as it must)
+		return
+	}
+	if st.closed {
+		panic("send on closed channel")
+	}
+	w := &chanWaiter{val: v}
+	st.sendq = append(st.sendq, w)
+	blockUntil(func() bool { return w.taken || st.closed })
+	if !w.taken {
+		panic("send on closed channel")
+	}
+}
+
+// Recv is `v, ok := <-c`.
+func Recv[T any](c <-chan T) (T, bool) {
+	if !active() {
+		v, ok := <-c
+		return v, ok
+	}
+	pointAlways("chan receive")
+	return recvNow(c)
+}
+
+func recvNow[T any](c <-chan T) (T, bool) {
+	var zero T
+	st := chanOf(c)
+	if c == nil {
+		blockUntil(func() bool { return false })
+	}
+	if cap(c) > 0 {
+		blockUntil(func() bool { return st.closed || len(c) > 0 })
+		v, ok := <-c
+		return v, ok
+	}
+	st.recvw++
+	blockUntil(func() bool { return len(st.sendq) > 0 || st.closed })
+	st.recvw--
+	if len(st.sendq) > 0 {
+		w := st.sendq[0]
+		st.sendq = st.sendq[1:]
+		w.taken = true
+		return w.val.(T), true
+	}
+	return zero, false
+}
+
+// Recv1 is `<-c` used as a value.
+func Recv1[T any](c <-chan T) T {
+	v, _ := Recv(c)
+	return v
+}
+
+// Close is close(c).
+func Close[T any](c chan<- T) {
+	if !active() {
+		close(c)
+		return
+	}
+	pointAlways("chan close")
+	st := chanOf(c)
+	if st.closed {
+		panic("close of closed channel")
+	}
+	st.closed = true
+	close(c)
+}
+
+// SelCase describes one communication clause of a select statement.
+type SelCase struct {
+	ready func() bool
+}
+
+func SelSend[T any](c chan<- T) SelCase {
+	return SelCase{ready: func() bool { return sendReady(c, chanOf(c)) }}
+}
+func SelRecv[T any](c <-chan T) SelCase {
+	return SelCase{ready: func() bool { return recvReady(c, chanOf(c)) }}
+}
+
+// SelectReady blocks until a case can proceed and returns its index; -1 selects the default clause. When several cases
+// are ready the choice is a decision of the explorer (Go picks pseudo-randomly).
+func SelectReady(hasDefault bool, cases ...SelCase) int {
+	if !active() {
+		panic("vsync: select outside the scheduler")
+	}
+	pointAlways("select")
+	s := S
+	for _, c := range cases {
+		// a receiver parked in select counts as a waiting receiver for unbuffered senders only once it commits; sends to
+		// unbuffered channels therefore become ready through plain receivers only (documented limitation)
+		_ = c
+	}
+	var ready []int
+	collect := func() bool {
+		ready = ready[:0]
+		for i, c := range cases {
+			if c.ready() {
+				ready = append(ready, i)
+			}
+		}
+		return len(ready) > 0
+	}
+	if !collect() {
+		if hasDefault {
+			return -1
+		}
+		s.cur.inSel = true
+		me := s.cur
+		blockUntil(collect)
+		me.inSel = false
+	}
+	k := 0
+	if len(ready) > 1 {
+		k = s.choose("select", len(ready), false, 0, "select")
+	}
+	return ready[k]
+}
+
+// RecvNow / SendNow perform an operation that SelectReady reported ready (no further scheduling point).
+func RecvNow[T any](c <-chan T) (T, bool) { return recvNow(c) }
+func SendNow[T any](c chan<- T, v T) {
+	st := chanOf(c)
+	if cap(c) > 0 || st.closed {
+		if st.closed {
+			panic("send on closed channel")
+		}
+		c <- v
+		return
+	}
+	w := &chanWaiter{val: v}
+	st.sendq = append(st.sendq, w)
+	blockUntil(func() bool { return w.taken || st.closed })
+	if !w.taken {
+		panic("send on closed channel")
+	}
+}
+
+// AtomicPoint is the scheduling point of an operation of verif/shim/vatomic.
+func AtomicPoint(p unsafe.Pointer, op string) { point(p, op) }
+
+// ResetChans forgets the channel side tables (executions must be independent).
+func ResetChans() { chans = map[uintptr]*chanState{} }
+
+// ---------------------------------------------------------------- the rest of package sync
+
+type Cond struct {
+	L       Locker
+	waiting []*condWaiter
+}
+
+type condWaiter struct{ woken bool }
+
+func NewCond(l Locker) *Cond { return &Cond{L: l} }
+
+func (c *Cond) Wait() {
+	point(unsafe.Pointer(c), "Cond.Wait")
+	w := &condWaiter{}
+	c.waiting = append(c.waiting, w)
+	c.L.Unlock()
+	blockUntil(func() bool { return w.woken })
+	c.L.Lock()
+}
+
+func (c *Cond) Signal() {
+	point(unsafe.Pointer(c), "Cond.Signal")
+	if len(c.waiting) > 0 {
+		c.waiting[0].woken = true
+		c.waiting = c.waiting[1:]
+	}
+}
+
+func (c *Cond) Broadcast() {
+	point(unsafe.Pointer(c), "Cond.Broadcast")
+	for _, w := range c.waiting {
+		w.woken = true
+	}
+	c.waiting = nil
+}
+
+// Map keeps insertion order (Range order of sync.Map is unspecified; insertion order is one legal answer).
+type Map struct {
+	keys []any
+	m    map[any]any
+}
+
+func (m *Map) Load(k any) (any, bool) {
+	point(unsafe.Pointer(m), "Map.Load")
+	v, ok := m.m[k]
+	return v, ok
+}
+
+func (m *Map) Store(k, v any) {
+	point(unsafe.Pointer(m), "Map.Store")
+	m.store(k, v)
+}
+
+func (m *Map) store(k, v any) {
+	if m.m == nil {
+		m.m = map[any]any{}
+	}
+	if _, ok := m.m[k]; !ok {
+		m.keys = append(m.keys, k)
+	}
+	m.m[k] = v
+}
+
+func (m *Map) LoadOrStore(k, v any) (any, bool) {
+	point(unsafe.Pointer(m), "Map.LoadOrStore")
+	if x, ok := m.m[k]; ok {
+		return x, true
+	}
+	m.store(k, v)
+	return v, false
+}
+
+func (m *Map) LoadAndDelete(k any) (any, bool) {
+	point(unsafe.Pointer(m), "Map.LoadAndDelete")
+	v, ok := m.m[k]
+	m.del(k)
+	return v, ok
+}
+
+func (m *Map) Delete(k any) {
+	point(unsafe.Pointer(m), "Map.Delete")
+	m.del(k)
+}
+
+func (m *Map) del(k any) {
+	if _, ok := m.m[k]; !ok {
+		return
+	}
+	delete(m.m, k)
+	for i, x := range m.keys {
+		if x == k {
+			m.keys = append(m.keys[:i:i], m.keys[i+1:]...)
+			break
+		}
+	}
+}
+
+func (m *Map) Swap(k, v any) (any, bool) {
+	point(unsafe.Pointer(m), "Map.Swap")
+	o, ok := m.m[k]
+	m.store(k, v)
+	return o, ok
+}
+
+func (m *Map) CompareAndSwap(k, old, new any) bool {
+	point(unsafe.Pointer(m), "Map.CompareAndSwap")
+	if x, ok := m.m[k]; ok && x == old {
+		m.m[k] = new
+		return true
+	}
+	return false
+}
+
+func (m *Map) CompareAndDelete(k, old any) bool {
+	point(unsafe.Pointer(m), "Map.CompareAndDelete")
+	if x, ok := m.m[k]; ok && x == old {
+		m.del(k)
+		return true
+	}
+	return false
+}
+
+func (m *Map) Range(f func(k, v any) bool) {
+	point(unsafe.Pointer(m), "Map.Range")
+	for _, k := range append([]any{}, m.keys...) {
+		v, ok := m.m[k]
+		if !ok {
+			continue
+		}
+		if !f(k, v) {
+			return
+		}
+	}
+}
+
+func (m *Map) Clear() {
+	point(unsafe.Pointer(m), "Map.Clear")
+	m.m, m.keys = nil, nil
+}
+
+func OnceFunc(f func()) func() {
+	var o Once
+	return func() { o.Do(f) }
+}
+
+func OnceValue[T any](f func() T) func() T {
+	var o Once
+	var v T
+	return func() T { o.Do(func() { v = f() }); return v }
+}
+
+func OnceValues[T1, T2 any](f func() (T1, T2)) func() (T1, T2) {
+	var o Once
+	var v1 T1
+	var v2 T2
+	return func() (T1, T2) { o.Do(func() { v1, v2 = f() }); return v1, v2 }
 }
